@@ -317,6 +317,13 @@ func cmdHist(o *Out, line string, f []string) {
 			if err == nil && c.Info().SampleCount != 0 {
 				bad("a successful flush left samples pending", nil)
 			}
+		case 'M':
+			// metadata the collector cannot read: refused, and the metadata set before stays set
+			if wc != nil {
+				obs = append(obs, "n")
+				continue
+			}
+			obs = append(obs, "m"+errStr(c.SetMetadata(map[string]string{"not": "a document"})))
 		case 'm':
 			if wc != nil {
 				obs = append(obs, "n")
@@ -634,11 +641,33 @@ func streamHist(o *Out, rng *rand.Rand, thorough bool, _ []string) {
 			if len(prefix) == zl {
 				return
 			}
-			for _, a := range []string{"a0", "a1", "z", "f", "r", "m3"} {
+			for _, a := range []string{"a0", "a1", "z", "f", "r", "m3", "M"} {
 				zrec(append(append([]string{}, prefix...), a))
 			}
 		}
 		zrec(nil)
+		// a sample without any metric leaf between samples with metrics (its schema has no metrics at all)
+		mpool := []string{npool[0], npool[1], hx(docBytes([]*Node{{Key: "s", Tag: 0x02, Raw: append(u32(2), 'x', 0)}})), hx(docBytes(nil))}
+		var mrec func(prefix []string)
+		mrec = func(prefix []string) {
+			if len(prefix) >= 2 {
+				for _, ctor := range []string{"dynamic", "streamingDynamic", "writer", "batch"} {
+					for _, n := range []int{1, 2} {
+						run(o, fmt.Sprintf("hist %s %d - | %s | %s", ctor, n, strings.Join(mpool, " "), strings.Join(prefix, " ")))
+					}
+				}
+			}
+			if len(prefix) == 4 {
+				return
+			}
+			for _, a := range []string{"a0", "a1", "a2", "a3"} {
+				if len(prefix) == 3 && (a == "a3") {
+					continue
+				}
+				mrec(append(append([]string{}, prefix...), a))
+			}
+		}
+		mrec(nil)
 	}
 	// random long histories
 	nr := 300
@@ -666,7 +695,11 @@ func streamHist(o *Out, rng *rand.Rand, thorough bool, _ []string) {
 			case r < 17:
 				ops = append(ops, "f")
 			case r < 18:
-				ops = append(ops, fmt.Sprintf("m%d", rng.Intn(6)))
+				if rng.Intn(4) == 0 {
+					ops = append(ops, "M")
+				} else {
+					ops = append(ops, fmt.Sprintf("m%d", rng.Intn(6)))
+				}
 			default:
 				ops = append(ops, "i")
 			}
@@ -808,6 +841,18 @@ func streamFault(o *Out, rng *rand.Rand, thorough bool, _ []string) {
 			for _, n := range []int{1, 2, 3} {
 				for _, ops := range opsets {
 					run(o, fmt.Sprintf("hist %s %d %s | %s | %s", ctor, n, sc, strings.Join(pool, " "), ops))
+				}
+			}
+		}
+	}
+	// samples without any metric leaf (strings only, or no field at all) are samples like any other: they fill chunks,
+	// are flushed and count for the durability bound, with and without write faults
+	mpool := append(append([]string{}, pool...), hx(docBytes([]*Node{{Key: "s", Tag: 0x02, Raw: append(u32(2), 'x', 0)}})), hx(docBytes(nil)))
+	for _, sc := range []string{"-", "fail", "ok,fail", "ok,short7"} {
+		for _, ctor := range []string{"streaming", "streamingDynamic", "writer"} {
+			for _, n := range []int{1, 2, 3} {
+				for _, ops := range []string{"a5 a5 a5 a5 a5 f", "a0 a5 a5 a0 a0 a5 f", "a6 a6 a6 a0 a0 f", "a5 a6 a5 a6 f a5 f"} {
+					run(o, fmt.Sprintf("hist %s %d %s | %s | %s", ctor, n, sc, strings.Join(mpool, " "), ops))
 				}
 			}
 		}
